@@ -349,6 +349,31 @@ ORES = [12.0, 8.0] if TIER == "quick" else [12.0, 8.0, 6.0, 5.0]
 NPROBE = 1600 if TIER == "quick" else 4000
 probes = so3_probes(NPROBE)
 
+# ---- the space_group entry: the sample for space group n is the sample for its PROPER point group (the rotations of
+# the point group, get_point_group(n, proper=True); theorem C03_spacegroup_* ties that table to the space-group
+# operations) -- it must lie in that group's fundamental zone and equal the sample requested with point_group=
+SG_ALL = list(range(1, 231))
+SG_SEL = [1, 2, 3, 6, 10, 16, 25, 47, 75, 81, 83, 89, 99, 111, 123, 143, 147, 149, 156, 162, 168, 174, 175, 177, 183, 187, 191,
+          195, 200, 207, 215, 221] if TIER == "quick" else SG_ALL
+for method in (["cubochoric"] if TIER == "quick" else METHODS):
+    for n in SG_SEL:
+        P = S.get_point_group(n, proper=True)
+        rot = get_sample_fundamental(12.0, space_group=n, method=method)
+        st(f"oracle/fund-space-group/{method}")
+        rep = {"call": f"get_sample_fundamental(12.0, space_group={n}, method={method!r})", "proper_point_group": P.name}
+        q = rot.data.reshape(-1, 4)
+        g = P.data.reshape(-1, 4)
+        if q.shape[0]:
+            viol = np.abs(q @ g.T).max(1) - np.abs(q[:, 0])
+            i = int(np.argmax(viol))
+            if viol[i] > 1e-7:
+                fail(f"inside:{method}:space-group:{P.name}", f"space group {n}: rotation outside the fundamental zone of its proper point "
+                     f"group {P.name}: a symmetry-equivalent has a smaller angle (excess {viol[i]:.3g})", dict(rep, q=q[i].tolist()))
+        ref = get_sample_fundamental(12.0, point_group=P, method=method).data.reshape(-1, 4)
+        if ref.shape != q.shape or not np.allclose(ref, q, atol=1e-12):
+            fail(f"space-group-entry:{method}:{P.name}", f"the sample for space group {n} ({q.shape[0]} rotations) differs from the sample for "
+                 f"its proper point group {P.name} ({ref.shape[0]} rotations)", rep)
+
 for method in METHODS:
     # 10 degrees: an EVEN number of steps (36), the only case in which the "quaternion" grid contains both q and -q
     # for rotations by 180 degrees (low-order groups keep them in the zone)
